@@ -298,6 +298,8 @@ func (r *runningRoutine) execute(
 		select {
 		case <-ctx.Done():
 			err = context.Canceled
+			// the previous instance must have returned before we report our own exit
+			<-waitCh
 		case <-waitCh:
 		}
 	} else if ctx.Err() != nil {
